@@ -7,7 +7,7 @@ From LV Require Import Base.Bytes Model.Obj Model.DocQ Model.PageTree Model.Trav
   Proofs.EditProofsDelete Proofs.EditProofsKF Proofs.EditProofsContent Model.EditV0 Model.Renumber
   Proofs.EditProofsBm Proofs.EditProofsOutline Proofs.EditProofsContent2 Proofs.EditProofsDecode Proofs.EditProofsRes
   Proofs.EditProofsEx2 Proofs.EditProofsCount Model.StreamFilt.
-From LV Require Import Gen.Consts Spec.Dfs Spec.DfsCounts Spec.PageTreeEdit Proofs.EditProofsTree Proofs.EditProofsTree2.
+From LV Require Import Gen.Consts Spec.Dfs Spec.DfsCounts Spec.PageTreeEdit Proofs.EditProofsTree Proofs.EditProofsTree2 Proofs.EditProofsRes2.
 From LV Require Proofs.PageTreeProofs.
 From LV Require Proofs.FilterProofsDict.
 From LV Require Model.Outline Spec.OutlineSpec Proofs.OutlineProofs.
@@ -355,16 +355,50 @@ Theorem C11_resources_add_graphics_state :
     forall q, res_le (effective_resources (d_objects d) q) (effective_resources (d_objects d') q).
 Proof. exact add_graphics_state_resources. Qed.
 
-(* add_xobject: proved when the XObject entry of the page's resource dictionary is absent or a direct dictionary.
-   MISSING: the XObject entry is an indirect reference ([category_indirect]); the call then writes the name into a separate
-   object, which in an ill-typed graph may also serve as a page-tree node or as somebody's resource dictionary (then a
-   name "Parent" / an existing category name would overwrite an entry that matters); needs a typing hypothesis.  Decided
-   on the implementation by the harness for every generated case (seeded mutant m3 lives there). *)
-Theorem C11_resources_add_xobject_partial :
+(* add_xobject.  The XObject entry of the page's resource dictionary absent or a direct dictionary: EVERY object graph, no
+   hypothesis ([xobject_target] is None then).  The XObject entry an indirect reference: the call writes  name -> Reference(x)
+   into the separate dictionary object t the reference leads to ([xobject_target d page] = the map at that moment, t, its
+   dictionary xd).  [xobject_typed d page nm] -- the typing this case needs, nothing more:
+     (1) nm is not "Parent" / "Resources" (the conclusion speaks of EVERY node q, t included: read as a page-tree node, t may
+         not have these two entries rewritten; ISO 32000-1 7.8.3 names resources /Im1, /Fm0, ..),
+     (2) nm is new in xd (then t only gains an entry that none of its possible roles reads: every graph, any aliasing), OR t is
+         not ALSO the dictionary some dictionary's Resources entry leads to ([no_resources_leads_to]: ISO 32000-1 Table 33, the
+         XObject value is a dictionary of external objects, not a resource dictionary) -- then an existing name may be
+         overwritten: as a category t keeps all its names, as a node it keeps Parent and Resources.
+   Both are restrictions on the ill-typed part of the domain (the generator builds XObject dictionaries as objects of their
+   own); C11_resources_add_xobject_alias_witness shows that (2) cannot be dropped. *)
+Theorem C11_resources_add_xobject :
+  forall d page nm x d' r, xobject_typed d page nm ->
+    add_xobject d page nm x = (d', r) ->
+    forall q, res_le (effective_resources (d_objects d) q) (effective_resources (d_objects d') q).
+Proof. exact add_xobject_resources. Qed.
+
+(* the direct case on its own: no hypothesis on names or aliasing *)
+Theorem C11_resources_add_xobject_direct :
   forall d page nm x d' r, ~ category_indirect d page K_XObject ->
     add_xobject d page nm x = (d', r) ->
     forall q, res_le (effective_resources (d_objects d) q) (effective_resources (d_objects d') q).
 Proof. exact add_xobject_resources_partial. Qed.
+
+(* why (2): page 3's Resources is object 4 whose XObject entry leads back to object 4 itself; add_xobject(page 3, "Font", 6)
+   overwrites the Font category and the page loses /Font /F1.  The starting document is ill-typed, the call does what it
+   was asked to; replayed on the crate through the harness (same trace, its direct verdict reports the lost font). *)
+Theorem C11_resources_add_xobject_alias_witness :
+  exists d', add_xobject alias_doc (3, 0)%N K_Font' (6, 0)%N = (d', OOk) /\
+    effective_resources (d_objects alias_doc) (3, 0)%N =
+      Some [(K_Font', K_F1', ORef 5 0); (K_XObject, K_Font', ODict [(K_F1', ORef 5 0)]); (K_XObject, K_XObject, ORef 4 0)] /\
+    ~ res_le (effective_resources (d_objects alias_doc) (3, 0)%N) (effective_resources (d_objects d') (3, 0)%N) /\
+    ~ xobject_typed alias_doc (3, 0)%N K_Font'.
+Proof. exact alias_witness. Qed.
+
+(* non-vacuity of the reference case: page 3's XObject entry is a reference to the dictionary object 4, which holds Im0;
+   overwriting Im0 meets (2) by the second alternative, the new name F1 by the first; the page can use both afterwards *)
+Theorem C11_resources_add_xobject_example :
+  (exists m2, xobject_target xref_doc (3, 0)%N = Some (m2, (4, 0)%N, [(K_Im0, ORef 6 0)])) /\
+  xobject_typed xref_doc (3, 0)%N K_Im0 /\ xobject_typed xref_doc (3, 0)%N K_F1' /\
+  effective_resources (d_objects (fst (add_xobject xref_doc (3, 0)%N K_F1' (6, 0)%N))) (3, 0)%N =
+    Some [(K_Font', K_F1', ORef 5 0); (K_XObject, K_Im0, ORef 6 0); (K_XObject, K_F1', ORef 6 0)].
+Proof. exact xref_example. Qed.
 
 (* frame of add_xobject / add_graphics_state (any graph): trailer and cursor unchanged, no object added or removed, at most
    two objects differ afterwards (the page when it gets its own Resources entry, and the holder of the category) *)
@@ -532,7 +566,10 @@ Print Assumptions C11_add_to_page_content_content.
 Print Assumptions C11_change_page_content_example.
 Print Assumptions C11_resources_get_or_create.
 Print Assumptions C11_resources_add_graphics_state.
-Print Assumptions C11_resources_add_xobject_partial.
+Print Assumptions C11_resources_add_xobject.
+Print Assumptions C11_resources_add_xobject_direct.
+Print Assumptions C11_resources_add_xobject_alias_witness.
+Print Assumptions C11_resources_add_xobject_example.
 Print Assumptions C11_frame_resource_ops.
 Print Assumptions C11_resources_example.
 Print Assumptions C11_count_loop_chain.
